@@ -126,6 +126,14 @@ def run_sequence(seed, k, res):
             elif u < 0.85:
                 s = rng.normal(size=n) * 10.0 ** rng.integers(-2, 2)
                 M.shift_base(s); op = ("shift",)
+            elif u < 0.88:
+                # save the incumbent exactly as Controller.soft_restart does: the residual argument is a VIEW of the model's own row
+                x = M.xopt(abs_coordinates=True); rview = M.ropt(); ns = int(M.nsamples[M.kopt]); ev = int(M.eval_num[M.kopt])
+                r = np.array(rview, copy=True)
+                M.save_point(x, rview, ns, ev, x_in_abs_coords=True); op = ("save",)
+                o = ssq(r) + (h(x) if useh else 0)
+                if saved is None or better(o, saved["o"]) or (o == saved["o"]) or (np.isnan(saved["o"]) and np.isnan(o)):
+                    saved = dict(x=x.copy(), r=r.copy(), o=o, ns=ns, ev=ev)
             elif u < 0.95:
                 x = rng.normal(size=n); r = rv(); ns = int(rng.integers(1, 4)); ev = 500 + step
                 M.save_point(x, r, ns, ev, x_in_abs_coords=True); op = ("save",)
@@ -183,12 +191,19 @@ def run_sequence(seed, k, res):
                 exp = "saved" if better(so, inc) else ("inc" if (better(inc, so) or inc == so) else "either")
             else:
                 exp = "inc"
-            got = "saved" if (saved is not None and ev == saved["ev"]) else "inc"
-            if exp != "either" and got != exp:
-                why = "get_final_results returned the %s point, expected the %s one (incumbent %r, saved %r)" % (
-                    {"inc": "incumbent", "saved": "saved"}[got], {"inc": "incumbent", "saved": "saved"}[exp], inc, saved["o"] if saved else None)
-            elif got == "saved" and not (np.array_equal(r, saved["r"], equal_nan=True) and ns == saved["ns"]):
-                why = "get_final_results returned the saved point with wrong residuals / sample count"
+            def same_rec(o1, r1, ns1, ev1, o2, r2, ns2, ev2):
+                return bool((o1 == o2 or (np.isnan(o1) and np.isnan(o2))) and np.array_equal(np.asarray(r1), np.asarray(r2), equal_nan=True)
+                            and int(ns1) == int(ns2) and int(ev1) == int(ev2))
+            is_inc = same_rec(o, r, ns, ev, M.objval[M.kopt], M.fval_v[M.kopt], M.nsamples[M.kopt], M.eval_num[M.kopt])
+            is_saved = saved is not None and same_rec(o, r, ns, ev, saved["o"], saved["r"], saved["ns"], saved["ev"])
+            if exp == "inc" and not is_inc:
+                why = "get_final_results did not return the incumbent record although it is the better one (incumbent %r, saved %r; returned obj %r, eval %r)" % (
+                    inc, saved["o"] if saved else None, o, ev)
+            elif exp == "saved" and not is_saved:
+                why = "get_final_results did not return the saved record (obj %r, eval %d, its own residuals and sample count) although it is the better one " \
+                      "(incumbent %r; returned obj %r, eval %r)" % (saved["o"], saved["ev"], inc, o, ev)
+            elif exp == "either" and not (is_inc or is_saved):
+                why = "get_final_results returned neither the incumbent nor the saved record (returned obj %r, eval %r)" % (o, ev)
             st["final_queries"] = st.get("final_queries", 0) + 1
         state = "%s|%s|%s|%s" % ("full" if cur >= M.num_pts else "growing", "stale" if stale else "fresh", "saved" if saved else "nosave",
                                  "nan" if len(fin) < len(objs) else "finite")
